@@ -61,6 +61,8 @@ type c20Cfg struct {
 	BufCap int    `json:"buf_cap,omitempty"`
 	BufMax int    `json:"buf_max,omitempty"`
 	NilBuf bool   `json:"nil_buf,omitempty"`
+	// ZeroCfg: a ReadConfig is passed whose MaxEventSize is 0 (the default)
+	ZeroCfg bool `json:"zero_config,omitempty"`
 }
 
 func (c c20Cfg) limit() int {
@@ -77,7 +79,7 @@ func (c c20Cfg) limit() int {
 }
 
 var c20Cfgs = []c20Cfg{
-	{Entry: "read"}, {Entry: "read", MaxEv: -1}, {Entry: "read", MaxEv: -70000}, {Entry: "read", MaxEv: 1}, {Entry: "read", MaxEv: 3}, {Entry: "read", MaxEv: 16}, {Entry: "read", MaxEv: 100},
+	{Entry: "read"}, {Entry: "read", ZeroCfg: true}, {Entry: "conn", NilBuf: true, BufMax: 1}, {Entry: "read", MaxEv: -1}, {Entry: "read", MaxEv: -70000}, {Entry: "read", MaxEv: 1}, {Entry: "read", MaxEv: 3}, {Entry: "read", MaxEv: 16}, {Entry: "read", MaxEv: 100},
 	{Entry: "read", MaxEv: 4096}, {Entry: "read", MaxEv: 65536}, {Entry: "read", MaxEv: 1 << 20}, {Entry: "read", MaxEv: 5000},
 	{Entry: "conn"}, {Entry: "conn", NilBuf: true, BufMax: 16}, {Entry: "conn", BufCap: 8, BufMax: 16}, {Entry: "conn", BufCap: 64, BufMax: 16},
 	{Entry: "conn", BufCap: 4096, BufMax: 65536}, {Entry: "conn", NilBuf: true, BufMax: 1 << 20}, {Entry: "conn", NilBuf: true, BufMax: 100}, {Entry: "conn", BufCap: 100, BufMax: 1},
@@ -86,7 +88,7 @@ var c20Cfgs = []c20Cfg{
 func c20Run(cfg c20Cfg, rd *mon.ChunkReader) readObs {
 	if cfg.Entry == "read" {
 		var rc *sse.ReadConfig
-		if cfg.MaxEv != 0 {
+		if cfg.MaxEv != 0 || cfg.ZeroCfg {
 			rc = &sse.ReadConfig{MaxEventSize: cfg.MaxEv}
 		}
 		return runRead(rd, rc, -1)
@@ -257,7 +259,7 @@ func c20Endless(r *fw.Run, key string, cfg c20Cfg, prefix string, unit string, c
 	var obs readObs
 	if cfg.Entry == "read" {
 		var rc *sse.ReadConfig
-		if cfg.MaxEv != 0 {
+		if cfg.MaxEv != 0 || cfg.ZeroCfg {
 			rc = &sse.ReadConfig{MaxEventSize: cfg.MaxEv}
 		}
 		obs = runRead(full, rc, -1)
@@ -322,6 +324,7 @@ func (p *prefixReader) Read(b []byte) (int, error) {
 func TestC20(t *testing.T) {
 	r := fw.Start(t, "C20")
 	defer r.Finish()
+	runConnNoSniff = true
 	n := r.N(12000, 200000)
 	for i := 0; i < n; i++ {
 		if !r.Mine("S", i) {
